@@ -70,19 +70,14 @@ def readNow (st : MuxSt) (h blen bcap : Nat) : Option ReadRes :=
     | q :: _ => if q.length ≤ bcap then some (.data (q.take blen) q.length) else some .enomem
     | [] => if c.closed then some (.err (st.err.getD .eof)) else none
 
-/-- wake blocked background Reads whose connection got a frame or was closed -/
-def End.wake (e : End) : End :=
-  let rec go (e : End) (todo : List PendRead) (still : List PendRead) : End :=
-    match todo with
-    | [] => { e with pend := still.reverse }
-    | p :: rest =>
-      match readNow e.st p.h p.blen p.bcap with
-      | none => go e rest (p :: still)
-      | some r =>
-        match e.fire (.read p.h p.blen p.bcap r) with
-        | some e' => go { e' with done := e'.done ++ [(p.op, r)] } rest still
-        | none => go e rest (p :: still)
-  go e e.pend []
+/-- Background Reads are NOT completed by the hidden events: whether the goroutine was
+    already parked in `select` when a frame arrived (direct hand-off) or starts later and finds
+    the frame queued — possibly next to a closed `doneC`, where Go's `select` may pick either
+    — is not observable.  A pending background Read is resolved when the script joins it (or
+    at the end), against the state at that time and with the result the implementation
+    reported.  (The generators send at most one frame to a connection with a pending
+    background Read before joining it, so queue occupancy does not depend on this.) -/
+def End.wake (e : End) : End := e
 
 /-- the hidden reader goroutine of one end runs as far as it can: frames are routed, a full
     queue overflows, the end of the stream (cut, or the peer closed) is an error -/
@@ -229,7 +224,7 @@ def End.wakeAcc (e : End) : End :=
 
 /-- accept one observed operation result.  `late` is the eventual result of a background
     operation (needed when the model says it completes at once). -/
-def Sys.apply (s : Sys) (idx : Nat) (op : Op) (seen : Seen) (late : Option Seen) :
+def Sys.apply (s : Sys) (idx : Nat) (op : Op) (seen : Seen) (_late : Option Seen) :
     Except String Sys := do
   let x := op.x
   match op.kind with
@@ -275,6 +270,11 @@ def Sys.apply (s : Sys) (idx : Nat) (op : Op) (seen : Seen) (late : Option Seen)
           | none => throw s!"write h={op.h}: trunk write error in the implementation, connection closed in the model"
         if !(peer.st.closed || e.st.closed) then
           throw s!"write h={op.h}: trunk write failed in the implementation, both muxes open in the model"
+        -- `mux.Close` closes the connections one after the other and the trunk last: a Write on
+        -- a connection it has not reached yet passes the `doneC` check and fails on the trunk
+        match e.st.objs[op.h]? with
+        | some c => if e.st.closed && c.closed then return s
+        | none => pure ()
         match e.fire (.write op.h op.payload (.errTrunk false)) with
         | some e' =>
           let w := s.outWire x
@@ -349,33 +349,16 @@ def Sys.apply (s : Sys) (idx : Nat) (op : Op) (seen : Seen) (late : Option Seen)
       pure (s.setEnd x e')
     | .readbg =>
       expect "readbg" "pending" seen (seen == .pending)
-      match readNow e.st op.h op.blen op.bcap with
-      | none =>
-        let _ ← lookupConn e op.h
-        pure (s.setEnd x { e with pend := e.pend ++ [{ op := idx, h := op.h, blen := op.blen, bcap := op.bcap }] })
-      | some _ =>
-        -- returns at once; which of data / error a closed connection with queued frames
-        -- yields is Go's select: take the implementation's eventual result as the choice
-        match late with
-        | none => throw s!"readbg h={op.h}: no eventual result reported"
-        | some r =>
-          let e' ← e.readSeen op.h op.blen op.bcap r
-          let res : ReadRes := match r with
-            | .data p n => .data p n
-            | .err "enomem" => .enomem
-            | _ => .err (e.st.err.getD .eof)
-          pure (s.setEnd x { e' with done := e'.done ++ [(idx, res)] })
+      let _ ← lookupConn e op.h
+      pure (s.setEnd x { e with pend := e.pend ++ [{ op := idx, h := op.h, blen := op.blen, bcap := op.bcap }] })
     | .join =>
-      -- wait for the background Read issued as op `k`
-      match e.done.find? (·.1 == op.k), seen with
-      | some (_, .data p n), .data p' n' =>
-        if p == p' && n == n' then pure s else throw s!"join {op.k}: model data differs from the implementation's"
-      | some (_, .err me), .err k =>
-        if errOk me k then pure s else throw s!"join {op.k}: model error {me.name}, implementation {k}"
-      | some (_, .enomem), .err "enomem" => pure s
-      | none, .blocked => pure s
-      | some _, r => throw s!"join {op.k}: the background Read has completed in the model, implementation {r.show}"
-      | none, r => throw s!"join {op.k}: the background Read is still blocked in the model, implementation {r.show}"
+      -- the background Read issued as op `k` is resolved now, with the observed result
+      match e.pend.find? (·.op == op.k) with
+      | none => throw s!"join {op.k}: no such background Read pending in the model"
+      | some p =>
+        let e' ← e.readSeen p.h p.blen p.bcap seen
+        if seen == .blocked then pure (s.setEnd x e')
+        else pure (s.setEnd x { e' with pend := e'.pend.filter (·.op != op.k) })
     | .closeconn =>
       expect "conn close" "ok" seen (seen == .ok 0)
       match e.fire (.closeConn op.h) with
